@@ -36,11 +36,16 @@ def lattice_tree(rng, n, shape):
     xyz = {0: (rng.randint(-3, 3), rng.randint(-3, 3), rng.randint(-3, 3))}
     elen = [0] * n
     st = [0]
+    used = {xyz[0]}
     while st:
         v = st.pop()
         for c in kids.get(v, []):
-            ax = rng.randrange(3); L = rng.randint(1, 4)
-            q = list(xyz[v]); q[ax] += rng.choice([-1, 1]) * L
+            for _try in range(100):             # no two nodes at the same place (angles / tortuosity are undefined there)
+                ax = rng.randrange(3); L = rng.randint(1, 4 + _try // 10)
+                q = list(xyz[v]); q[ax] += rng.choice([-1, 1]) * L
+                if tuple(q) not in used:
+                    break
+            used.add(tuple(q))
             xyz[c] = tuple(q); elen[c] = L; st.append(c)
     return {"n": n, "pids": pids, "types": [1] + [rng.choice([2, 3, 4]) for _ in range(n - 1)], "xyz": [[float(c) for c in xyz[i]] for i in range(n)],
             "r": [rng.randint(1, 8) / 4 for _ in range(n)], "elen": elen}
@@ -145,7 +150,9 @@ class Features(Suite):
             for _ in range(2 if not big else 5):
                 shape = gen.pick_shape(rng, k); k += 1
                 t = lattice_tree(rng, n, shape)
-                rs2 = sorted({rng.randint(0, 40) + 0.5 for _ in range(6)})
+                # radii strictly between node distances, and radii that coincide EXACTLY with node distances (perfect squares, exact in
+                # float32 and float64): the count "at any radius" includes the boundary convention (one end ≤ r, the other > r)
+                rs2 = sorted({rng.randint(0, 40) + 0.5 for _ in range(5)} | {1.0, 4.0, 9.0, 16.0, 25.0})
                 out.append({"class": shape, "tree": t, "sholl_r2": rs2, "population": rng.random() < (0.3 if not big else 0.5)})
         return out
 
